@@ -464,5 +464,6 @@ func genGrammar(c *ctx, s *schema, which string) {
 		writeIfChanged(filepath.Join(c.out, "Matched.lean"), strings.Replace(mbs, "\\n", "\n", -1))
 	}
 	c.side["grammar"+sfx] = map[string]interface{}{"prods": g.Prods, "symbols": symNames, "prec": precJSON, "token_type": g.TokenType, "nt_type": g.NtType}
+	genTables(c, which, gf)
 	genActions(c, s, which, g, gf)
 }
